@@ -192,3 +192,41 @@ Lemma model_new_chunk_size c ps size align :
    let n := spec_size_from_hint (up c) (hs c) (ha c) hint in
    if IMAX - (ha c - 1) <? n then None else Some n).
 Proof. reflexivity. Qed.
+
+(* ---------------- the typed twin: BumpScope's shrink_slice ("adapted from Allocator::shrink") computes, for a slice of
+   old_len / new_len elements of size es and alignment ea, exactly the terms of the Allocator path (shrink_up_refines /
+   shrink_down_refines with osize = old_len * es, nsize = new_len * es, nalign = ea) — so the typed fast path and the
+   generic layout path agree (C17) and reclaim the same bytes (C13) *)
+Theorem typed_shrink_refines ptr old_len new_len es ea m pos :
+  valid_min_align m -> pow2 ea -> ea < W -> 0 <= ptr -> 0 <= es -> 0 <= new_len <= old_len ->
+  ptr + old_len * es + m - 1 < W -> old_len * es < W ->
+  let osize := old_len * es in let nsize := new_len * es in
+  let new_addr := down_alignZ (Z.max (ptr + osize - nsize) 0) (Z.max ea m) in
+  AllocSites.typed_shrink_old_size old_len es = Ok osize /\
+  AllocSites.typed_shrink_new_size new_len es = Ok nsize /\
+  AllocSites.typed_is_last_up ptr osize pos = Ok (ptr + osize =? pos) /\
+  AllocSites.typed_is_last_down ptr pos = Ok (ptr =? pos) /\
+  AllocSites.typed_shrink_up_end ptr nsize = Ok (ptr + nsize) /\
+  AllocSites.typed_shrink_up_new_pos (ptr + nsize) m = Ok (up_alignZ (ptr + nsize) m) /\
+  AllocSites.typed_shrink_down_old_end ptr osize = Ok (ptr + osize) /\
+  AllocSites.typed_shrink_down_new_addr (ptr + osize) nsize ea m = Ok new_addr /\
+  AllocSites.typed_shrink_down_new_end ptr nsize = Ok (ptr + nsize) /\
+  AllocSites.typed_shrink_down_overlaps (ptr + nsize) new_addr = Ok (new_addr <? ptr + nsize).
+Proof.
+  intros Hm Hea HeW Hp Hes Hl Hb HoW osize nsize new_addr. destruct Hm as [Hpm Hle].
+  pose proof (pow2_pos _ Hpm) as Hm0.
+  assert (Hn : 0 <= nsize <= osize) by (unfold nsize, osize; split; [apply Z.mul_nonneg_nonneg; lia|apply Z.mul_le_mono_nonneg_r; lia]).
+  assert (Hmx : pow2 (Z.max ea m)) by (apply pow2_max; assumption).
+  assert (HmW : Z.max ea m < W) by (apply Z.max_lub_lt; [exact HeW | rewrite W_val; lia]).
+  unfold AllocSites.typed_shrink_old_size, AllocSites.typed_shrink_new_size, AllocSites.typed_is_last_up,
+    AllocSites.typed_is_last_down, AllocSites.typed_shrink_up_end, AllocSites.typed_shrink_up_new_pos,
+    AllocSites.typed_shrink_down_old_end, AllocSites.typed_shrink_down_new_addr, AllocSites.typed_shrink_down_new_end,
+    AllocSites.typed_shrink_down_overlaps.
+  fold osize nsize.
+  rewrite !mul_ok by (fold osize nsize; lia). fold osize nsize.
+  assert (Hx : ptr + nsize + m - 1 < W) by lia.
+  rewrite !add_ok by lia.
+  rewrite site_up_align by (try assumption; rewrite ?W_val; lia).
+  rewrite site_bump_down by (try assumption; lia).
+  repeat split; reflexivity.
+Qed.
